@@ -73,6 +73,11 @@ pub struct RDebug {
     r_ldbase: ElfAddr, /* Base address the linker is loaded at.  */
 }
 
+/// Upper bounds on what we are willing to walk in the target's memory: the linker's data lives in
+/// the crashed process and may be corrupt (e.g. a cyclic `link_map` list).
+const MAX_DYNAMIC_ENTRIES: usize = 64 * 1024;
+const MAX_LINK_MAP_ENTRIES: usize = 64 * 1024;
+
 /// Copies exactly `length` bytes from the target, failing if fewer could be read.
 fn copy_exact_from_process(pid: i32, src: usize, length: usize) -> Result<Vec<u8>> {
     let data = PtraceDumper::copy_from_process(pid, src, length)?;
@@ -96,7 +101,12 @@ pub fn write_dso_debug_stream(
         .get_program_header_address()
         .ok_or(SectionDsoDebugError::CouldNotFind("AT_PHDR in auxv"))? as usize;
 
-    let ph = copy_exact_from_process(blamed_thread, phdr, SIZEOF_PHDR * phnum_max)?;
+    let ph_size = SIZEOF_PHDR
+        .checked_mul(phnum_max)
+        .ok_or(SectionDsoDebugError::CouldNotFind(
+            "a sane AT_PHNUM in auxv",
+        ))?;
+    let ph = copy_exact_from_process(blamed_thread, phdr, ph_size)?;
     let program_headers;
     #[cfg(target_pointer_width = "64")]
     {
@@ -119,7 +129,7 @@ pub fn write_dso_debug_stream(
         // Adjust base address with the virtual address of the PT_LOAD segment
         // corresponding to offset 0
         if ph.p_type == goblin::elf::program_header::PT_LOAD && ph.p_offset == 0 {
-            base -= ph.p_vaddr as usize;
+            base = base.wrapping_sub(ph.p_vaddr as usize);
         }
         if ph.p_type == goblin::elf::program_header::PT_DYNAMIC {
             dyn_addr = ph.p_vaddr;
@@ -132,7 +142,7 @@ pub fn write_dso_debug_stream(
         ));
     }
 
-    dyn_addr += base as ElfAddr;
+    dyn_addr = dyn_addr.wrapping_add(base as ElfAddr);
 
     let dyn_size = std::mem::size_of::<goblin::elf::Dyn>();
     let mut r_debug = 0usize;
@@ -142,8 +152,16 @@ pub fn write_dso_debug_stream(
     // DSOs loaded into the program. If this information is indeed available,
     // dump it to a MD_LINUX_DSO_DEBUG stream.
     loop {
-        let dyn_data =
-            copy_exact_from_process(blamed_thread, dyn_addr as usize + dynamic_length, dyn_size)?;
+        if dynamic_length / dyn_size >= MAX_DYNAMIC_ENTRIES {
+            return Err(SectionDsoDebugError::CouldNotFind(
+                "DT_NULL in the dynamic section",
+            ));
+        }
+        let dyn_data = copy_exact_from_process(
+            blamed_thread,
+            (dyn_addr as usize).wrapping_add(dynamic_length),
+            dyn_size,
+        )?;
         dynamic_length += dyn_size;
 
         // goblin::elf::Dyn doesn't have padding bytes
@@ -179,6 +197,12 @@ pub fn write_dso_debug_stream(
     let mut dso_vec = Vec::new();
     let mut curr_map = debug_entry.r_map;
     while curr_map != 0 {
+        if dso_vec.len() >= MAX_LINK_MAP_ENTRIES {
+            // Most likely a cycle in the (possibly corrupt) list
+            return Err(SectionDsoDebugError::CouldNotFind(
+                "the end of the link_map list",
+            ));
+        }
         let link_map_data =
             copy_exact_from_process(blamed_thread, curr_map, std::mem::size_of::<LinkMap>())?;
 
